@@ -16,10 +16,16 @@ func VerifC11_Tokenizer() {
 	s := rt.StrN("s", 0, n)
 	rt.SetUnwind(len(s) + 3) // terminates within len+2 iterations of every loop
 	snippets, err := extractSnippets(s)
+	rt.ObserveBool("tok-ok", err == nil)
+	rt.Observe("tok-count", uint64(len(snippets)))
 	if err != nil {
 		rt.Assert(snippets == nil, "tok/error-no-snippets")
 		rt.Reach("tok-error")
 		return
+	}
+	for _, sn := range snippets {
+		rt.ObserveStr("tok-text", sn.text)
+		rt.Observe("tok-pos", uint64(sn.globalPosition))
 	}
 	for _, sn := range snippets {
 		rt.Assert(sn.globalPosition >= 1, "tok/position>=1")
@@ -82,6 +88,7 @@ func VerifC11_TokenPreserved() {
 	_, err := q.Check()
 	rt.Assert(err == nil, "preserve/check-ok")
 	text := q.Print()
+	rt.ObserveStr("printed", text)
 	back, err := ParseQuery(text)
 	rt.Assert(err == nil, "preserve/parse-ok")
 	if err != nil {
@@ -293,6 +300,10 @@ func VerifC11_ParserTotal() {
 	}
 	rt.SetUnwind(4 * (len(text) + 4))
 	q, err := ParseQuery(text)
+	rt.ObserveBool("parse-ok", err == nil)
+	if err == nil && q != nil {
+		rt.ObserveStr("reprinted", q.Print())
+	}
 	if err == nil {
 		rt.Assert(q != nil, "total/ok-nonnil")
 		rt.Assert(q.IsChecked(), "total/ok-checked")
